@@ -209,6 +209,10 @@ def prov_annotate_lookup(repo, tier="quick"):
     for call, nid in fl.calls():
         ct = fl.canon(call, nid)
         m = method_call(ct, "add_edge")
+        if m and m[0] in recvs and len(m[2]) == 1 and m[2][0][0] == "star":
+            # add_edge(*pair)
+            pr = m[2][0][1]
+            m = (m[0], m[1], (fl.subscript(pr, ("const", 0)), fl.subscript(pr, ("const", 1))), m[3])
         if m and m[0] in recvs and len(m[2]) >= 2:
             edge_sites.append((call, nid, m))
     # the same as one call: graph_frag.add_edges_from(pair for pair in combinations(members, 2) if molecule.has_edge(*pair))
@@ -285,6 +289,8 @@ def prov_annotate_lookup(repo, tier="quick"):
         for test, pol, gid in guards_of(fi, nid):
             t = fl.canon(test, gid)
             hm = method_call(t, "has_edge")
+            if hm and len(hm[2]) == 1 and hm[2][0][0] == "star":
+                hm = (hm[0], hm[1], (fl.subscript(hm[2][0][1], ("const", 0)), fl.subscript(hm[2][0][1], ("const", 1))), hm[3])
             if hm and hm[0] == mol and len(hm[2]) == 2 and set(hm[2]) == {a, b}:
                 guard_ok = pol
         if pair_ok and guard_ok:
